@@ -97,6 +97,9 @@ theorem examplesWFor_of_valid (T : Table) (o : Opts) (hT : TableOK T = true) (d 
        cases hx : d.attrs.flag "hasExample" with
        | true => rfl
        | false =>
+       cases hg : (d.kind == .header && d.attrs.flag "again") with
+       | true => simp
+       | false =>
         have : examplesWF d = true := by
           unfold examplesWF
           rw [List.all_eq_true]
@@ -106,13 +109,13 @@ theorem examplesWFor_of_valid (T : Table) (o : Opts) (hT : TableOK T = true) (d 
           cases r with | node rk ra rkids =>
           simp only [Doc.kind] at hkr hk
           subst hkr
-          simp only [Doc.attrs] at hs hx
+          simp only [Doc.attrs, Doc.kind] at hs hx hg
           have hkm : k ∈ exampleKinds := by simpa using hk
           have hf := tableFacts T hT
           have a1 : active T o k aa "examples" = true := by
             unfold active
             rw [anyHolds_as o aa _ _ (hf.ex k hkm).2.2]
-            simp [hd, hs, hx]
+            simp [hd, hs, hx, hg]
           have a2 : active T o .exampleRef ra "value" = true := by
             unfold active
             exact anyHolds_of_nil o ra _ hf.exRef
@@ -137,6 +140,9 @@ theorem examplesWFor_of_reached_rules (T : Table) (o : Opts) (hT : TableOK T = t
        cases hx : d.attrs.flag "hasExample" with
        | true => rfl
        | false =>
+       cases hg : (d.kind == .header && d.attrs.flag "again") with
+       | true => simp
+       | false =>
         have : examplesWF d = true := by
           unfold examplesWF
           rw [List.all_eq_true]
@@ -146,13 +152,13 @@ theorem examplesWFor_of_reached_rules (T : Table) (o : Opts) (hT : TableOK T = t
           cases r with | node rk ra rkids =>
           simp only [Doc.kind] at hkr hk
           subst hkr
-          simp only [Doc.attrs] at hs hx
+          simp only [Doc.attrs, Doc.kind] at hs hx hg
           have hkm : k ∈ exampleKinds := by simpa using hk
           have hf := tableFacts T hT
           have a1 : active T o k aa "examples" = true := by
             unfold active
             rw [anyHolds_as o aa _ _ (hf.ex k hkm).2.2]
-            simp [hd, hs, hx]
+            simp [hd, hs, hx, hg]
           have a2 : active T o .exampleRef ra "value" = true := by
             unfold active
             exact anyHolds_of_nil o ra _ hf.exRef
@@ -160,15 +166,30 @@ theorem examplesWFor_of_reached_rules (T : Table) (o : Opts) (hT : TableOK T = t
           exact shape_of_rulesOK o e hke (hv e hre)
         simp [this]
 
-/-- a containment edge of the property that the table covers is followed under every option set -/
+/-- a containment edge of the property that the table covers is followed under every option set (for a header:
+unless it is the mark of a header met again below itself, which the containment relation does not enter either) -/
 theorem covered_active (T : Table) (o : Opts) (k : Kind) (a : Attrs) (pos : String)
-    (hs : (k, pos) ∈ specEdges) (hc : (k, pos) ∉ uncovered T) : active T o k a pos = true := by
-  have hrow : (rowsFor T.edges k pos).contains [] = true := by
-    cases hcon : (rowsFor T.edges k pos).contains [] with
+    (hs : specAct k a pos = true) (hc : (k, pos) ∉ uncovered T) : active T o k a pos = true := by
+  unfold specAct at hs
+  rw [Bool.and_eq_true] at hs
+  have hmem : (k, pos) ∈ specEdges := by simpa using hs.1
+  have hrow : ((rowsFor T.edges k pos).contains [] ||
+      (decide (k = .header) && (rowsFor T.edges k pos).contains ["@not:cond:h == header"])) = true := by
+    cases hcon : ((rowsFor T.edges k pos).contains [] ||
+      (decide (k = .header) && (rowsFor T.edges k pos).contains ["@not:cond:h == header"])) with
     | true => rfl
-    | false => exact absurd (List.mem_filter.mpr ⟨hs, by show (!(rowsFor T.edges k pos).contains []) = true; rw [hcon]; rfl⟩) hc
+    | false =>
+      exact absurd (List.mem_filter.mpr ⟨hmem, by simp only [hcon]; rfl⟩) hc
   unfold active
-  exact anyHolds_of_nil o a _ hrow
+  rw [Bool.or_eq_true] at hrow
+  rcases hrow with h | h
+  · exact anyHolds_of_nil o a _ h
+  · rw [Bool.and_eq_true] at h
+    have hk : k = .header := by simpa using h.1
+    have hg : a.flag "again" = false := by simpa [hk] using hs.2
+    unfold anyHolds
+    rw [List.any_eq_true]
+    exact ⟨["@not:cond:h == header"], by simpa using h.2, by simp [guardsHold, litHolds, hg]⟩
 
 theorem reach_rules (T : Table) (o : Opts) (hT : TableOK T = true) {d n : Doc} (hr : Reach specAct d n) :
     (∀ m, Reach specAct d m → exclNode (uncovered T) o m = false) → validate T o d = true → rulesOK o n = true := by
@@ -183,7 +204,6 @@ theorem reach_rules (T : Table) (o : Opts) (hT : TableOK T = true) {d n : Doc} (
     rw [← localOKV_eq_rules T o d hT he.1 (examplesWFor_of_valid T o hT d hall)]; exact hl
   | @step k a kids pos c n hm he hr' ih =>
     intro hex hv
-    have hspec : (k, pos) ∈ specEdges := by simpa [specAct] using he
     by_cases hu : (k, pos) ∈ uncovered T
     · -- the code does not report along this edge: the exclusion says nothing below it violates a rule
       have hb := hex (.node k a kids) .self
@@ -196,7 +216,7 @@ theorem reach_rules (T : Table) (o : Opts) (hT : TableOK T = true) {d n : Doc} (
         have hkid' : (k, pos) ∈ uncovered T → specCleanB o c = true := by simpa [Doc.kind] using hkid
         exact hkid' hu
       exact (descend_plain_iff _ _ c).mp hclean n hr'
-    · have hact := covered_active T o k a pos hspec hu
+    · have hact := covered_active T o k a pos he hu
       have hvc : validate T o c = true := by
         unfold validate
         rw [descend_iff]
